@@ -357,11 +357,11 @@ class FuncGen:
             self.f('starred')
             # a starred divmod() of C-typed operands is a C tuple that the compiler unpacks into pointer garbage
             # (recorded defect, DESIGN 12.5): never directly under a star
-            self.no_divmod = True
+            prev, self.no_divmod = self.no_divmod, True
             try:
                 return '[*%s, %s, *%s]' % (self.expr('list', d), self.expr('int', d), self.expr('tuple', d))
             finally:
-                self.no_divmod = False
+                self.no_divmod = prev
         if c == 8:
             self.f('dict_use')
             return r.choice(['list(%s)', 'list(%s.values())', 'sorted(%s.keys(), key=repr)']) % self.expr('dict', d)
